@@ -16,6 +16,8 @@ pub mod c11;
 pub mod c12;
 pub mod c13;
 pub mod c14;
+pub mod c15;
+pub mod c17;
 pub mod c18;
 
 pub fn run(id: &str, run: &Run) {
@@ -31,6 +33,8 @@ pub fn run(id: &str, run: &Run) {
         "C10" => c10::run(run),
         "C11" => c11::run(run),
         "C12" => c12::run(run),
+        "C15" => c15::run(run),
+        "C17" => c17::run(run),
         "C18" => c18::run(run),
         "C14" => c14::run(run),
         "C13" => c13::run(run),
@@ -54,6 +58,8 @@ pub fn replay(id: &str, run: &Run, case: &Value) -> Check {
         "C10" => c10::replay(run, case),
         "C11" => c11::replay(run, case),
         "C12" => c12::replay(run, case),
+        "C15" => c15::replay(run, case),
+        "C17" => c17::replay(run, case),
         "C18" => c18::replay(run, case),
         "C14" => c14::replay(run, case),
         "C13" => c13::replay(run, case),
